@@ -13,7 +13,9 @@ func init() { props["C10"] = propC10 }
 func propC10(c *ctx) error {
 	res := c.res
 	res.Rule = "well-formed expressions e (generated ASTs) x non-continuing suffixes s (';', unterminated comment, newline+operand, operand, closing bracket, '}', unlexable bytes, after newline/comment) must be rejected; e with insignificant white space / comments must be accepted; every truncation of a well-formed directive value inside ${} must be rejected by the code scanner and at template load, in every directive kind; distinct = distinct text; non-trivial = all"
-	suffixes := []string{";", ";2", "; 2", "\n2", " 2", ")", "]", "}", " #", "\n#", " $", "\n@", "\n\"", ";[}'//", "\n\"/*", " )", " ,", ",1", "\n+ 1", "\n\\", " `", " '", "\n;", ";;", " b1", "\n// c\n2", " /* c\nd */ 2", "\n/* c */ #", " /* never closed", "\n/* never\nclosed", " /*", " /* c", " /*c", "\n/* c", " /* b1 */ /* c"}
+	suffixes := []string{";", ";2", "; 2", "\n2", " 2", ")", "]", "}", " #", "\n#", " $", "\n@", "\n\"", ";[}'//", "\n\"/*", " )", " ,", ",1", "\n+ 1", "\n\\", " `", " '", "\n;", ";;", " b1", "\n// c\n2", " /* c\nd */ 2", "\n/* c */ #", " /* never closed", "\n/* never\nclosed", " /*", " /* c", " /*c", "\n/* c", " /* b1 */ /* c",
+		// an unterminated comment next to a `*/` that closes nothing (inside a string literal, after `/*/`, in a raw literal)
+		" + '*/' /* todo", " /*/ was: sum */ /* cnt", " + `*/` /* x", " /* a */ + '*/*/' /* b", " == \"*/\" /* c", " /*/ */ /*/"}
 	harmless := []string{"", " ", "\n", " // c", " /* c */", "\t\n", " /* a\nb */", "\n// c", "\r\n", " /* c */ // d"}
 	askParse := func(src string) (string, error) {
 		if c.d == nil {
